@@ -264,41 +264,52 @@ def expected_joint(c, r):
     return E.reshape(T * d * n, T * d * n), None
 
 
+def fr_matmul(A, B):
+    return [[sum(A[i][k] * B[k][j] for k in range(len(B))) for j in range(len(B[0]))] for i in range(len(A))]
+
+
 def amplification(c, r, sd):
-    """Forward rounding-error bound of the sampling recursion relative to the marginal std:
-    max over (time, coordinate) of  (|G_k| ... |G_{t-1}| |L_t| 1  +  |G_k| ... |offsets / initial mean|) / sd.
-    Singular innovation covariances (zero calibrated output scale, noise-free ODE information) make the
-    backward gains ill-defined (entries ~1e170): the samples are then rounding noise and are not compared."""
+    """Conditioning gauge of the sampling recursion on THIS posterior: the recursion (means with zero draws
+    and the block columns G_k ... G_{t-1} L_t of the linear map) is evaluated once in float64 (numpy) and once
+    exactly (Fractions) on the same raw floats; returned is the largest float64 rounding error relative to
+    the marginal std, divided by the double-precision unit roundoff.  Singular innovation covariances (zero
+    calibrated output scale + noise-free ODE information) make the backward gains ill-defined (entries up to
+    ~1e170): there the samples are rounding noise (the gauge is astronomically large) and values are not
+    compared.  The gauge is only used to decide WHETHER values are compared, never as a verdict."""
     n, cc, nb = dims(c)
     T = r["ncond"] + 1
     rev = r["reverse"]
     worst = 0.0
+    order = list(range(T - 2, -1, -1)) if rev else list(range(T - 1))
     for a in range(nb):
-        Gs, _Qs = gains_and_Q(r, a)
-        Ls = [np.abs(np.abs(np.array(r["conds"][k][a]["to"]))[:, None] * np.array(r["conds"][k][a]["L"])) for k in range(T - 1)]
-        bs = [np.abs(np.array(r["conds"][k][a]["to"])[:, None] * np.array(r["conds"][k][a]["b"])).max(axis=1) for k in range(T - 1)]
-        L0 = np.abs(np.array(r["marginal"][a]["L"])).sum(axis=1)
-        m0 = np.abs(np.array(r["marginal"][a]["m"])).max(axis=1)
+        m0, L0, conds, Ls = block_inputs(r, a)
         sdb = block_view(c, sd, a).min(axis=2)           # (T, n)
-        with np.errstate(all="ignore"):
-            if rev:
-                acc = L0 + m0
-                worst = max(worst, float(np.nanmax(acc / sdb[T - 1])))
-                for k in range(T - 2, -1, -1):
-                    acc = np.abs(Gs[k]) @ acc + Ls[k].sum(axis=1) + bs[k]
-                    worst = max(worst, float(np.nanmax(acc / sdb[k])))
-            else:
-                acc = L0 + m0
-                worst = max(worst, float(np.nanmax(acc / sdb[0])))
-                for k in range(T - 1):
-                    acc = np.abs(Gs[k]) @ acc + Ls[k].sum(axis=1) + bs[k]
-                    worst = max(worst, float(np.nanmax(acc / sdb[k + 1])))
-        if not np.isfinite(worst):
-            return float("inf")
-    return worst
+        x_e, W_e = m0, L0                                   # exact carry: mean (n x c), newest block column
+        x_f, W_f = np.array(m0, dtype=float), np.array(L0, dtype=float)
+        cols_e, cols_f = [W_e], [W_f]
+        pos = T - 1 if rev else 0
+        for step, k in enumerate(order):
+            K = conds[k]
+            G_e = [[K["to"][i] * K["A"][i][j] * K["tl"][j] for j in range(n)] for i in range(n)]
+            b_e = [[K["to"][i] * x for x in K["b"][i]] for i in range(n)]
+            G_f = np.array(G_e, dtype=float)
+            x_e = [[u + v for u, v in zip(ru, rv)] for ru, rv in zip(fr_matmul(G_e, x_e), b_e)]
+            x_f = G_f @ x_f + np.array(b_e, dtype=float)
+            cols_e = [fr_matmul(G_e, W) for W in cols_e] + [Ls[k]]
+            cols_f = [G_f @ W for W in cols_f] + [np.array(Ls[k], dtype=float)]
+            pos = pos - 1 if rev else pos + 1
+            with np.errstate(all="ignore"):
+                err = np.abs(x_f - np.array(x_e, dtype=float)).max(axis=1)
+                for We, Wf in zip(cols_e, cols_f):
+                    err = np.maximum(err, np.abs(Wf - np.array(We, dtype=float)).max(axis=1))
+                ratio = err / sdb[pos]
+            if not np.all(np.isfinite(ratio)):
+                return float("inf")
+            worst = max(worst, float(ratio.max()))
+    return worst / 2.2e-16
 
 
-AMP_MAX = 1e7        # rounding bound eps * AMP_MAX = 2e-9 relative to std: 2% of RTOL
+AMP_MAX = 1e6        # float64 evaluation of the recursion accurate to 2e-10 std: 0.2% of RTOL
 
 
 # ------------------------------------------------------------------ main
@@ -429,7 +440,7 @@ def main():
             elif not okx:
                 sh = bool(np.all(np.abs(G - shared) <= tolG))
                 idx = np.unravel_index(np.argmax(np.where(same, 0.0, dG / tolG)), dG.shape)
-                ck.report("C13.iso.gram.cross-dimension" if c["mode"] == "posterior" else "C13.from_grid.iso.cross-dimension",
+                ck.report("C13.iso.gram.cross-dimension",
                           f"isotropic model, d={c['d']}: the Gram matrix M M^T of the sampling map has entry {float(G[idx])!r} between DIFFERENT state dimensions "
                           f"(flattened (time,coeff,dim) indices {tuple(int(x) for x in idx)}) where the isotropic law Cov (x) I_d has 0: one draw of length n is shared by "
                           f"all d columns in IsotropicNormal.sample_flat ((L z)[:, None]); M M^T == Cov (x) ones(d,d): {sh}", replay)
